@@ -34,7 +34,7 @@ PROPS: dict[str, dict[str, Any]] = {
     },
     "C08": {
         "level": "proof",
-        "sidecars": ["contracts/c08.py"],
+        "sidecars": ["contracts/c08.py", "contracts/c08_jobs.py"],
         "native_n": {"quick": 400, "thorough": 20000},
     },
     "C09": {
